@@ -71,11 +71,13 @@ def _sig_multigetnext_cut(v):
 @signature("x690-indefinite-length-loop")
 def _sig_x690_loop(v):
     f = v.get("facts", {})
-    return (
-        v.get("kind") == "processing-exceeds-cpu-budget"
-        and f.get("indefinite_length_octet") is True
-        and f.get("in_x690") is True
-    )
+    if f.get("indefinite_length_octet") is not True:
+        return False
+    if v.get("kind") == "processing-exceeds-cpu-budget":
+        return f.get("in_x690") is True
+    # the same walk over an indefinite length that does terminate (with an
+    # IndexError / RecursionError) allocates megabytes on the way
+    return v.get("kind") == "allocation-exceeds-memory-budget" and f.get("outcome") in ("IndexError", "RecursionError", "X690Error", "handled")
 
 
 @signature("engine-reboot-not-resynchronised")
